@@ -24,7 +24,7 @@ CLAIMED = {
             "DESIGN.md section 4, C04"),
     "C06": ("exploration",
             "property-based differential testing against independent reference readers (line split, whitespace tokens, wide decimals, 7-bit groups) on boundary-number and single-limit-violation documents",
-            "Valid documents with numbers replaced by boundary values relative to the literal type and the declared header values, documents with exactly one declared-limit violation, and all other input classes are parsed under a generated feed; an independent reader classifies each text as must-reject, accept-with-these-items or undecided. An accepted text must not be must-reject and the returned numbers must equal the reader's; for BTOR2 every returned line re-rendered must equal the text line.",
+            "Valid documents with numbers replaced by boundary values relative to the literal type and the declared header values, documents with exactly one declared-limit violation, and all other input classes are parsed under a generated feed; an independent reader classifies each text as must-reject, accept-with-these-items or undecided. An accepted text must not be must-reject and the returned numbers must equal the reader's; for BTOR2 every returned line re-rendered must equal the text line. Small AIGER files are also parsed with caller-defined literal types (MAX_CODE 28..31): from_code must never receive a code above MAX_CODE and M is accepted exactly when 2M+1 fits.",
             "Trusts harness/src/refs.rs; undecided texts give no verdict (counted in the evidence).",
             "DESIGN.md section 4, C06"),
     "C07": ("exploration",
@@ -34,7 +34,7 @@ CLAIMED = {
             "DESIGN.md section 4, C07"),
     "C08": ("exploration",
             "property-based testing of error locations: bounds predicate over all rejected generated inputs, and exact-place predicate for single-token corruptions from a catalogue using the renderer's token map",
-            "Part A checks line/column bounds of every syntax error produced by the input generators under generated feeds (binary AIGER gate sections excluded from line splitting by an independent decoder). Part B corrupts exactly one token of a well-formed document (14 catalogue entries) and requires the reported line to be the token's line and the column to lie on the token, one-shot and re-chunked.",
+            "Part A checks line/column bounds of every syntax error produced by the input generators under generated feeds (binary AIGER gate sections excluded from line splitting by an independent decoder). Part B corrupts exactly one token of a well-formed document (14 catalogue entries) and requires the reported line to be the token's line and the column to lie on the token, one-shot, re-chunked and behind a preamble consumed before LineReader::new. Part C drives LineReader directly with a hand-written word scanner (give_up, set_mark + give_up_at, set_mark_to_position + give_up_at; words longer than two chunks) and compares with the word's true line and column.",
             "Trusts the token map of the reference renderer; only unambiguous corruptions are in the catalogue.",
             "DESIGN.md section 4, C08"),
     "C09": ("exploration",
@@ -44,17 +44,17 @@ CLAIMED = {
             "DESIGN.md section 4, C09"),
     "C10": ("exploration",
             "parameter sweep drawn by proptest over (parser, chunk size, read size, max item size) with on-the-fly generated streams of >= 64 x bound bytes and a counting global allocator measuring peak live heap",
-            "Each configuration streams tens of MiB (thorough: up to 1 GiB for 1 MiB chunks) that are never materialised through a streaming parser; the peak live heap must stay below 16 x chunk + 16 x max item + 64 KiB and the stream must parse to a clean end with the generated number of items.",
+            "Each configuration streams tens of MiB (thorough: up to 1 GiB for 1 MiB chunks) that are never materialised through a streaming parser; the peak live heap must stay below 16 x chunk + 16 x max item + 64 KiB and the stream must parse to a clean end with the generated number of items. Also: AIGER section readers in skip mode, streams with a damaged tail (BTOR2 justice count, megabytes of binary continuation bytes) that must be rejected within the bound, and the DeferredReader driven directly in three scanner styles.",
             "Bound constants are judgement calls (DESIGN.md); quick tier caps the stream at 48 MiB per configuration.",
             "DESIGN.md section 4, C10"),
     "C12": ("exploration",
             "property-based testing with an independent 64-bit parallel simulator (exhaustive truth tables up to 6 variables, 256 random patterns above), structural predicate, binary write/parse acceptance, injected single defects, deep graphs under a CPU watchdog",
-            "Generated well-formed AIGs (arbitrary numbering and gate order, constants, negations, duplicate and dangling gates, every root section) are renumbered under all 8 option combinations and three literal types; structure, functional equivalence of every root and of the literal map, preserved resets and binary codec acceptance are checked. AIGs with exactly one injected cycle, undefined literal or double definition must yield the matching error when the defect matters. Chains/trees up to 10^6 gates check termination (worker CPU watchdog, crash = violation).",
+            "Generated well-formed AIGs (arbitrary numbering and gate order, constants, negations, duplicate and dangling gates, every root section) are renumbered under all 8 option combinations and all five literal types, optionally with the variables renamed to the last variables of the type, sparsely above 2^32 (groups agreeing modulo 2^32) or by a 2^40 stride; structure, functional equivalence of every root and of the literal map, preserved resets and binary codec acceptance are checked. AIGs with exactly one injected cycle, undefined literal or double definition must yield the matching error when the defect matters. Chains/trees up to 10^6 gates check termination (worker CPU watchdog, crash = violation).",
             "Random simulation above 6 variables; trusts the simulator in harness/src/props/c12.rs.",
             "DESIGN.md section 4, C12"),
     "C05": ("exploration",
             "robustness fuzzing with a structured generator (grammar, mutation, hostile headers, arbitrary bytes) in isolated worker processes with a counting global allocator, CPU watchdog and crash attribution; two build profiles",
-            "300k (quick) / 5M (thorough) inputs per run over all nine parser entry points, five literal types and both configs, in a build with overflow checks and debug assertions and in a release build. Oracle: the result is a value (no panic, signal, abort, CPU-limit hit) and the peak heap during the parse is at most 128 x delivered bytes + 256 KiB, measured by a counting allocator; a worker that dies is attributed to the case it was running and reported with a replay file.",
+            "300k (quick) / 5M (thorough) inputs per run over all nine parser entry points, five literal types and both configs, in a build with overflow checks and debug assertions and in a release build. Oracle: the result is a value (no panic, signal, abort, CPU-limit hit) and the peak heap during the parse is at most 128 x delivered bytes + 256 KiB, measured by a counting allocator; a worker that dies is attributed to the case it was running and reported with a replay file. Input classes include documents behind byte order marks, one token repeated up to 10^6 times inside a valid document, and feeds that end in an injected I/O error.",
             "Heap-bound constants are judgement calls documented in DESIGN.md; hang = 60 CPU-seconds twice.",
             "DESIGN.md section 4, C05"),
     "C02": ("exploration",
@@ -79,13 +79,13 @@ CLAIMED = {
             "DESIGN.md section 4, C14"),
     "C16": ("exploration",
             "complete small-scope enumeration (all strings over {SP,TAB,CR,LF,x} up to length 6 x offsets x feeds x patterns) plus proptest sampling, against reference scanners and a delivered-byte counter",
-            "tabs_or_spaces, newline, next_newline and fixed are compared with reference implementations on every string over a 5-letter alphabet up to length 6, every start offset, three feeds (fully buffered, bytewise with chunk 1, 3-byte chunks) and every prefix/wrong-byte/too-long pattern; returned offset, unchanged cursor and window, and the number of bytes pulled from the source (<= bytes needed to decide + chunk - 1) are checked. Sampled beyond the small scope with arbitrary bytes and generated feeds.",
+            "tabs_or_spaces, newline, next_newline and fixed are compared with reference implementations on every string over a 5-letter alphabet up to length 6, every start offset, three feeds (fully buffered, bytewise with chunk 1, 3-byte chunks) and every prefix/wrong-byte/too-long pattern; returned offset, unchanged cursor and window, and the number of bytes pulled from the source (<= bytes needed to decide + chunk - 1) are checked. Sampled beyond the small scope with arbitrary bytes and generated feeds, and with strings made of runs of up to 40 KB (long lines and blank runs across chunk boundaries).",
             "Trusts the reference scanners in harness/src/props/c16.rs.",
             "DESIGN.md section 4, C16"),
     "C15": ("exploration",
             "complete enumeration of the finite combinator domain + proptest-drawn payloads against a reference semantics table with closure invocation counters",
-            "Every (combinator, input case, continuation result) combination of the 15 combinators is executed and compared with a reference table written from the documentation (result value, closure invocation count, closure argument, mutation); payload values are additionally sampled by proptest. The domain is finite, so the enumeration is complete (exhaustive: true).",
-            "Trusts the reference table in harness/src/props/c15.rs; payload types are i64 only (the combinators are parametric).",
+            "Every (combinator, input case, continuation result) combination of the 15 combinators is executed and compared with a reference table written from the documentation (result value, closure invocation count, closure argument, mutation); payload values are additionally sampled by proptest. Each combination runs in four evaluation contexts: i64 payloads with capturing closures or zero-sized payloads with stateless fn items, evaluated plainly or inside a destructor while the thread unwinds. The domain is finite, so the enumeration is complete (exhaustive: true).",
+            "Trusts the reference table in harness/src/props/c15.rs; payload types are i64 and () (the combinators are parametric).",
             "DESIGN.md section 4, C15"),
 }
 
